@@ -3,6 +3,6 @@
    types; N, Z, positive, nat, comparison, spec_float stay the extracted datatypes. *)
 Require Extraction.
 Require Import ExtrOcamlBasic.
-From LV Require Import Corr C18corr C11corr C15corr C16corr Seqcorr Rendercorr C02corr C17corr Lexcorr C12corr Blockcorr.
+From LV Require Import Corr C18corr C11corr C15corr C16corr Seqcorr Rendercorr C02corr C17corr Lexcorr C12corr Blockcorr Condcorr.
 Extraction Language OCaml.
-Extraction "model.ml" c18_check c11_check c15_check c16_check seq_check render_check sink_check filter_check date_check dshow_check dparse_check lex_check serde_check tovalue_check content_check block_check.
+Extraction "model.ml" c18_check c11_check c15_check c16_check seq_check render_check sink_check filter_check date_check dshow_check dparse_check lex_check serde_check tovalue_check content_check block_check cond_check.
